@@ -14,7 +14,7 @@ CACHE = os.path.join(VERIF, ".cache")
 LEAN_DIR = os.path.join(VERIF, "lean")
 HARNESS_DIR = os.path.join(VERIF, "harness")
 EXTRACT_DIR = os.path.join(VERIF, "extract")
-EVIDENCE = os.path.join(VERIF, "evidence")
+EVIDENCE = os.environ.get("VERIF_EVIDENCE", os.path.join(VERIF, "evidence"))
 REPLAYS = os.path.join(EVIDENCE, "replays")
 SCRATCH_ROOT = os.environ.get("VERIF_SCRATCH", "/var/tmp")
 NCPU = os.cpu_count() or 4
@@ -128,7 +128,18 @@ def build_harness(kind="ft"):
         else:
             env["CGO_ENABLED"] = "0"
             cmd = ["go", "build", "-tags", "verif", "-o", binp + ".tmp", "."]
-        p = subprocess.run(cmd, cwd=HARNESS_DIR, env=env, stdout=subprocess.PIPE, stderr=subprocess.STDOUT, text=True)
+        if REPO == "/repo":
+            p = subprocess.run(cmd, cwd=HARNESS_DIR, env=env, stdout=subprocess.PIPE, stderr=subprocess.STDOUT, text=True)
+        else:
+            # development: build against another copy of the repository (scratch worktree with a candidate change)
+            with scratch("verif-hb-") as d2:
+                hd = os.path.join(d2, "harness")
+                shutil.copytree(HARNESS_DIR, hd)
+                with open(os.path.join(hd, "go.mod")) as f:
+                    gm = f.read().replace("=> /repo", "=> " + REPO)
+                with open(os.path.join(hd, "go.mod"), "w") as f:
+                    f.write(gm)
+                p = subprocess.run(cmd, cwd=hd, env=env, stdout=subprocess.PIPE, stderr=subprocess.STDOUT, text=True)
         if p.returncode != 0:
             raise BuildError("harness does not build against the current tree (" + kind + ")", p.stdout)
         os.replace(binp + ".tmp", binp)
